@@ -88,7 +88,8 @@ func c15(p *Prog, r *Report) {
 			continue
 		}
 		n := 0
-		for _, c := range sitesIn(fn, func(n string) bool { return n == "crypto/sha512.Sum512" }) {
+		for _, ds := range p.deepSites(p.NewSym(fn), func(n string) bool { return n == "crypto/sha512.Sum512" }) {
+			c := ds.Site
 			args := c.Common().Args
 			if len(args) != 1 {
 				continue
